@@ -46,7 +46,9 @@ Definition pnew (ok : bool) (k : nat) : ptr := if ok then PNew k else PNull.
 Inductive arg :=
 | AP (p : ptr) | AZ (z : Z)
 | APO (p : ptr) (off : Z)                    (* byte pointer p + off *)
-| AOpaque (i : nat).                         (* the i-th parameter, of a type that is not modelled (float) *)
+| AOpaque (i : nat)                          (* the i-th parameter, of a type that is not modelled (float) *)
+| AVal (f : string) (p : ptr).               (* the value the payload getter f returns for the item p
+                                                (cbor_float_get_float4 ...): not modelled *)
 
 (* ---------- ordered part: what reaches the allocator, and calls of other listed functions ---------- *)
 Inductive req :=
@@ -69,6 +71,7 @@ Inductive eff :=
 | Store (b : ptr) (idx : Z) (m : string) (v : ptr)   (* b[idx].m = v *)
 | Fill (b : ptr) (n : Z) (v : ptr)               (* b[i] = v for every i < n *)
 | Copy (dst src : ptr) (n : Z)                   (* memcpy(dst, src, n) *)
+| CopyAt (dst : ptr) (off : Z) (src : ptr) (n : Z)   (* memcpy(dst + off, src, n) *)
 | SetPtr (o : ptr) (f : string) (v : ptr)        (* final value of the pointer field o->f *)
 | SetInt (o : ptr) (f : string) (v : Z).         (* final value of an integer field of a block that
                                                     has no entry value (fresh), or that the plan does
